@@ -394,7 +394,7 @@ func annoScenarios(b *scenario) []*scenario {
 
 var cmdSpecs = []cmdSpec{
 	{
-		path: "snps", props: []string{"C03", "C10", "C13"},
+		path: "snps", props: []string{"C03", "C13"},
 		want: func(s *scenario) cmdWant {
 			if s.opensFail(s.str("query"), s.str("reference"), s.str("outfile")) {
 				return cmdWant{err: true}
